@@ -36,14 +36,17 @@ type rtEntry struct {
 	owner  int  // client that released it
 	failed bool // released by a failed execution
 	free   bool
+	slots  int // how many times it currently sits in the pool (a double Put gives 2, as in sync.Pool)
 }
 
 type rgEntry struct {
-	pool *sync.Pool
-	r    jet.Ranger
-	id   int
-	free bool
-	seq  int // release sequence number
+	pool  *sync.Pool
+	r     jet.Ranger
+	id    int
+	free  bool
+	seq   int // release sequence number
+	slots int // how many times it currently sits in the pool: sync.Pool does not deduplicate, so an
+	// object Put twice is handed to two owners; the simulator keeps that behaviour
 }
 
 type Pools struct {
@@ -62,6 +65,7 @@ type Pools struct {
 	lastRt                                              int // index of the runtime released last
 	Trace                                               func(format string, a ...any)
 	rgOutstanding                                       int
+	DoublePuts                                          int64 // an object released while it was already in the pool
 }
 
 // Install sets the jet hooks; the returned func removes them.
@@ -143,7 +147,11 @@ func (p *Pools) swapRuntime(got *jet.Runtime, fresh func() *jet.Runtime) *jet.Ru
 		return rt
 	}
 	e := &p.rts[pick]
-	e.free = false
+	e.slots--
+	if e.slots <= 0 {
+		e.slots = 0
+		e.free = false
+	}
 	p.RtReused++
 	if e.failed {
 		p.RtReusedAfterFail++
@@ -160,6 +168,10 @@ func (p *Pools) swapRuntime(got *jet.Runtime, fresh func() *jet.Runtime) *jet.Ru
 func (p *Pools) releaseRuntime(rt *jet.Runtime) {
 	for i := range p.rts {
 		if p.rts[i].rt == rt {
+			if p.rts[i].free {
+				p.DoublePuts++
+			}
+			p.rts[i].slots++
 			p.rts[i].free = true
 			p.rts[i].failed = false
 			p.rts[i].owner = p.CurClient
@@ -170,7 +182,7 @@ func (p *Pools) releaseRuntime(rt *jet.Runtime) {
 		}
 	}
 	// a runtime the simulator did not hand out (hooks installed mid-flight): adopt it
-	p.rts = append(p.rts, rtEntry{rt: rt, id: len(p.rts), owner: p.CurClient, free: true})
+	p.rts = append(p.rts, rtEntry{rt: rt, id: len(p.rts), owner: p.CurClient, free: true, slots: 1})
 	p.lastRt = len(p.rts) - 1
 	raceRelease(rt)
 }
@@ -229,7 +241,11 @@ func (p *Pools) swapRanger(pool *sync.Pool, got jet.Ranger, fresh func() jet.Ran
 		return r
 	}
 	e := &p.rgs[pick]
-	e.free = false
+	e.slots--
+	if e.slots <= 0 {
+		e.slots = 0
+		e.free = false
+	}
 	p.RgReused++
 	if p.rgOutstanding > 0 {
 		p.RgReusedNested++
@@ -245,6 +261,10 @@ func (p *Pools) releaseRanger(pool *sync.Pool, r jet.Ranger) {
 	p.relSeq++
 	for i := range p.rgs {
 		if p.rgs[i].r == r {
+			if p.rgs[i].free {
+				p.DoublePuts++
+			}
+			p.rgs[i].slots++
 			p.rgs[i].free = true
 			p.rgs[i].seq = p.relSeq
 			if p.rgOutstanding > 0 {
@@ -255,7 +275,7 @@ func (p *Pools) releaseRanger(pool *sync.Pool, r jet.Ranger) {
 			return
 		}
 	}
-	p.rgs = append(p.rgs, rgEntry{pool: pool, r: r, id: len(p.rgs), free: true, seq: p.relSeq})
+	p.rgs = append(p.rgs, rgEntry{pool: pool, r: r, id: len(p.rgs), free: true, seq: p.relSeq, slots: 1})
 	raceRelease(r)
 }
 
